@@ -242,7 +242,7 @@ pub fn check(case: &Case) -> Outcome {
         let mut ps = case.params.clone();
         let mut added: Vec<(String, String)> = Vec::new();
         for (pos, k, v) in &case.marketing {
-            if added.iter().any(|(x, _)| x == k) || !cfg.marketing_query_params.contains(k) {
+            if added.iter().any(|(x, _)| decode(x) == decode(k)) || !cfg.marketing_query_params.contains(&decode(k)) {
                 continue;
             }
             let at = (*pos as usize) % (ps.len() + 1);
@@ -261,7 +261,7 @@ pub fn check(case: &Case) -> Outcome {
                 let mut action = Action::from_routes_rule(routes.clone(), &reqm, None);
                 let headers = action.filter_headers(Vec::new(), 0, false, None);
                 let loc = headers.iter().find(|h| h.name == "Location").map(|h| h.value.clone());
-                added.sort();
+                added.sort_by_key(|(k, _)| decode(k));
                 let skipped: Vec<String> = added
                     .iter()
                     .map(|(k, v)| {
@@ -314,7 +314,7 @@ pub fn strategy() -> BoxedStrategy<Case> {
     let path = prop::collection::vec(atoms(PATH_ATOMS, 1, 3), 0..=4).prop_map(|segs| format!("/{}", segs.join("/")));
     let param = (atoms(KEY_ATOMS, 1, 2), prop_oneof![1 => Just(None), 1 => Just(Some(String::new())), 6 => atoms(VAL_ATOMS, 1, 3).prop_map(Some)]);
     let params = prop::collection::vec(param, 0..=4);
-    let marketing = prop::collection::vec((any::<u8>(), 0usize..7, pick(vec!["x".to_string(), "news letter".to_string(), "a+b".to_string(), "%C3%A9".to_string(), "".to_string()])), 0..=2);
+    let marketing = prop::collection::vec((any::<u8>(), 0usize..12, pick(vec!["x".to_string(), "news letter".to_string(), "a+b".to_string(), "%C3%A9".to_string(), "".to_string()])), 0..=2);
     let repeat = prop::option::weighted(0.12, (any::<u8>(), any::<u8>(), pick(vec!["1".to_string(), "2".to_string(), "".to_string(), "%41".to_string(), "x+y".to_string()])));
     (config_strategy(), path, params, marketing, prop::collection::vec(any::<u16>(), 4), any::<u16>(), (repeat, prop::bool::weighted(0.25)))
         .prop_map(|(config, path, params, marketing, perm, mutate_at, (repeat, host_marker))| {
@@ -330,7 +330,8 @@ pub fn strategy() -> BoxedStrategy<Case> {
                 seen.push(f);
                 ps.push((k, v));
             }
-            let all = ["utm_source", "utm_medium", "utm_campaign", "utm_term", "utm_content", "ref", "gclid"];
+            // spellings as a URL carries them; the configured names are their decoded forms
+            let all = ["utm_source", "utm_medium", "utm_campaign", "utm_term", "utm_content", "ref", "gclid", "r%C3%A9f", "r\u{e9}f", "ad%20id", "ad+id", "c%2B"];
             let marketing = marketing.into_iter().map(|(pos, k, v)| (pos, all[k].to_string(), v)).collect();
             Case { config, path, params: ps, marketing, perm, mutate_at, repeat, host_marker }
         })
@@ -340,7 +341,7 @@ pub fn strategy() -> BoxedStrategy<Case> {
 pub fn run(ctx: &Ctx) -> Report {
     let mut rep = Report::new(
         "C09",
-        "case = router config (all 64 flag combinations x 3 marketing sets) x URL (0..4 path segments and 0..4 query parameters over an alphabet with both letter cases, digits, sub-delims, space, quotes, <, >, +, %xx escapes, non-ASCII; decoded keys distinct, plus in ~12% of the cases one repeated key for which only P1 and P6 are required) x marketing parameters x permutation x mutation point; \
+        "case = router config (all 64 flag combinations x 4 marketing sets, one with names the encoder escapes: r\u{e9}f, 'ad id', 'c+') x URL (0..4 path segments and 0..4 query parameters over an alphabet with both letter cases, digits, sub-delims, space, quotes, <, >, +, %xx escapes, non-ASCII; decoded keys distinct, plus in ~12% of the cases one repeated key for which only P1 and P6 are required) x marketing parameters x permutation x mutation point; \
          oracle (metamorphic, through the caller flow Request::new + rebuild_with_config): P1 rule_from(u) matches req(u); P2 it does not match u with one alphanumeric of the path, a key or a value replaced; P3 match is invariant under query permutation; \
          P4 marketing parameters are ignored iff configured, and Location / Action::get_target == target + skipped parameters iff the pass flag; P5 ASCII case swap matches iff the case flag; P6 rebuild(rebuild(q)) == rebuild(q); \
          non-trivial = >=2 parameters not in sorted order, or an encoded / non-ASCII / '+' / space / quote character, or a marketing parameter; distinct by case hash",
